@@ -106,7 +106,7 @@ func stuckLimit() time.Duration {
 		}
 	}
 	if thorough() {
-		return 600 * time.Second
+		return 1500 * time.Second
 	}
 	return 240 * time.Second
 }
